@@ -1,0 +1,33 @@
+//go:build verif
+
+package compact
+
+import (
+	"diagonal.works/b6"
+)
+
+// Exports for the verification harness (/verif, property C10). Compiled only with -tags verif.
+
+// VerifBucketBitsForCount is the builder's choice of bucket bits for a block with count features.
+func VerifBucketBitsForCount(count uint64) int { return bucketBitsForCount(count) }
+
+// VerifTagBits is the builder's tag bits per feature type.
+func VerifTagBits() map[b6.FeatureType]int {
+	m := make(map[b6.FeatureType]int)
+	for k, v := range tagBits {
+		m[k] = v
+	}
+	return m
+}
+
+// VerifInferValueType runs the unexported inferValueType: the concrete Value the tag decoder
+// chooses for a marshalled value (panicked = true if it panics with "not implemented").
+func VerifInferValueType(buffer []byte) (v Value, panicked bool) {
+	defer func() {
+		if r := recover(); r != nil {
+			panicked = true
+		}
+	}()
+	v = inferValueType(buffer)
+	return
+}
